@@ -222,6 +222,7 @@ package statebackend
 //@   assigns headExists, headNumber, headHash, headReadFailed, calls_StateUpdate, arg_StateUpdate_header, arg_StateUpdate_update, arg_StateUpdate_declaredClasses, arg_StateUpdate_skipVerifyNewRoot, calls_writeBlockContent, arg_writeBlockContent_reader, arg_writeBlockContent_writer, arg_writeBlockContent_block, arg_writeBlockContent_stateUpdate, arg_writeBlockContent_commitments, arg_writeBlockContent_newClasses, calls_InsertWithBatch, arg_InsertWithBatch_batch, arg_InsertWithBatch_bloom, arg_InsertWithBatch_blockNumber
 //@   callsite writeBlockContent@*: this_block_into_the_batch: $1 == batch && $2 == *block && $3 == *stateUpdate
 //@   callsite InsertWithBatch@*: this_block_into_the_batch: $1 == batch && $2 == (*block).EventsBloom && $3 == (*block).Number
+//@   callsite InsertWithBatch@*: memory_moves_last: calls_StateUpdate == old(calls_StateUpdate) + 1 && calls_writeBlockContent == old(calls_writeBlockContent) + 1
 //@   callsite Update@*: verified_root: $1 == (*block).Header && $2 == *stateUpdate && !$4
 //@   ensures all_steps_once: result == nil ==> calls_StateUpdate == old(calls_StateUpdate) + 1 && calls_writeBlockContent == old(calls_writeBlockContent) + 1 && calls_InsertWithBatch == old(calls_InsertWithBatch) + 1
 //@   ensures extends_the_head: result == nil && headExists && headNumber < (1<<64) - 1 ==> (*block).Number == headNumber + 1
@@ -245,9 +246,81 @@ package statebackend
 //@   assigns headExists, headNumber, headHash, headReadFailed, calls_LegacyUpdate, arg_LegacyUpdate_header, arg_LegacyUpdate_update, arg_LegacyUpdate_declaredClasses, arg_LegacyUpdate_skipVerifyNewRoot, calls_writeBlockContent, arg_writeBlockContent_reader, arg_writeBlockContent_writer, arg_writeBlockContent_block, arg_writeBlockContent_stateUpdate, arg_writeBlockContent_commitments, arg_writeBlockContent_newClasses, calls_InsertWithBatch, arg_InsertWithBatch_batch, arg_InsertWithBatch_bloom, arg_InsertWithBatch_blockNumber
 //@   callsite writeBlockContent@*: this_block_into_the_batch: $1 == txn && $2 == *block && $3 == *stateUpdate
 //@   callsite InsertWithBatch@*: this_block_into_the_batch: $1 == txn && $2 == (*block).EventsBloom && $3 == (*block).Number
+//@   callsite InsertWithBatch@*: memory_moves_last: calls_LegacyUpdate == old(calls_LegacyUpdate) + 1 && calls_writeBlockContent == old(calls_writeBlockContent) + 1
 //@   callsite Update@*: verified_root: $1 == (*block).Header && $2 == *stateUpdate && !$4
 //@   ensures all_steps_once: result == nil ==> calls_LegacyUpdate == old(calls_LegacyUpdate) + 1 && calls_writeBlockContent == old(calls_writeBlockContent) + 1 && calls_InsertWithBatch == old(calls_InsertWithBatch) + 1
 //@   ensures extends_the_head: result == nil && headExists && headNumber < (1<<64) - 1 ==> (*block).Number == headNumber + 1
 //@   ensures filter_with_the_batch: calls_FilterInsert == old(calls_FilterInsert)
 //@   ensures memory_follows_commit: calls_InsertWithBatch == old(calls_InsertWithBatch)
 //@   onlyprop memory_follows_commit C05
+
+// ---- "state at block n" is a view pinned to n - also when n is the head (C03) -----------------------
+// A reader keeps the view while later blocks are stored, and contracts that do not exist at n must
+// be reported as not found: both need the history view, never the live head state. The number the
+// view is pinned to is the one asked for (by number) or the one the hash resolves to (by hash), and
+// the retention check comes first.
+//@ ghost var retainedNumber uint64
+//@ extern func github.com/NethermindEth/juno/pruner.RequireStateRetainedByBlockNumber
+//@   logged as RequireRetained
+//@ extern func github.com/NethermindEth/juno/pruner.BlockNumberByHashIfStateRetained
+//@   logged as NumberByHash
+//@   assigns retainedNumber
+//@   ensures result1 == nil ==> retainedNumber == result0
+//@ extern func github.com/NethermindEth/juno/pruner.StateRootIfStateRetainedByBlockNumber
+//@   logged as RootIfRetained
+//@ extern func github.com/NethermindEth/juno/core/deprecatedstate.NewHistory
+//@   logged as LegacyHistory
+//@ extern func github.com/NethermindEth/juno/core/deprecatedstate.New
+//@ extern func github.com/NethermindEth/juno/core/state.NewStateHistory
+//@   logged as NewStateHistory
+//@ extern func github.com/NethermindEth/juno/core/state.NewStateReader
+//@ extern func github.com/NethermindEth/juno/db.KeyValueStore.NewIndexedBatch
+//@ extern func github.com/NethermindEth/juno/db/memory.New
+//@ extern func github.com/NethermindEth/juno/db/memory.(*Database).NewIndexedBatch
+//@ extern func github.com/NethermindEth/juno/core/felt.(*Felt).IsZero
+//@ extern func github.com/NethermindEth/juno/core.GetBlockHeaderNumberByHash
+//@   assigns retainedNumber
+//@   ensures result1 == nil ==> retainedNumber == result0
+//@ extern func github.com/NethermindEth/juno/core.GetGlobalStateRootByBlockNumber
+//@   logged as RootByNumber
+//@ func (*deprecatedStateBackend).StateAtBlockNumber
+//@   props C03
+//@   arith int
+//@   nosafe
+//@   requires b != nil && b.database != nil
+//@   modifies *
+//@   assigns calls_RequireRetained, arg_RequireRetained_blockNumber, calls_LegacyHistory, arg_LegacyHistory_blockNumber
+//@   callsite RequireStateRetainedByBlockNumber@*: of_the_block_asked_for: $2 == blockNumber
+//@   ensures retention_checked: calls_RequireRetained == old(calls_RequireRetained) + 1
+//@   ensures a_view_pinned_to_the_block: result2 == nil ==> calls_LegacyHistory == old(calls_LegacyHistory) + 1 && arg_LegacyHistory_blockNumber == blockNumber
+//@ func (*deprecatedStateBackend).StateAtBlockHash
+//@   props C03
+//@   arith int
+//@   nosafe
+//@   requires b != nil && b.database != nil && blockHash != nil
+//@   modifies *
+//@   assigns retainedNumber, calls_NumberByHash, arg_NumberByHash_blockHash, calls_LegacyHistory, arg_LegacyHistory_blockNumber
+//@   callsite BlockNumberByHashIfStateRetained@*: of_the_hash_asked_for: $1 == blockHash
+//@   ensures a_view_pinned_to_the_block: result2 == nil && calls_NumberByHash == old(calls_NumberByHash) + 1 ==> calls_LegacyHistory == old(calls_LegacyHistory) + 1 && arg_LegacyHistory_blockNumber == retainedNumber
+//@   ensures history_only_for_a_resolved_hash: calls_LegacyHistory == old(calls_LegacyHistory) || calls_NumberByHash == old(calls_NumberByHash) + 1
+//@ func (*stateBackend).StateAtBlockNumber
+//@   props C03
+//@   arith int
+//@   nosafe
+//@   requires b != nil && b.database != nil
+//@   modifies *
+//@   assigns calls_RootIfRetained, arg_RootIfRetained_blockNumber, calls_NewStateHistory, arg_NewStateHistory_blockNum
+//@   callsite StateRootIfStateRetainedByBlockNumber@*: of_the_block_asked_for: $2 == blockNumber
+//@   callsite NewStateHistory@*: pinned_to_the_block_with_its_root: $0 == blockNumber && $1 == stateRoot
+//@   ensures retention_checked: calls_RootIfRetained == old(calls_RootIfRetained) + 1
+//@   ensures a_view_pinned_to_the_block: result2 == nil ==> calls_NewStateHistory == old(calls_NewStateHistory) + 1
+//@ func (*stateBackend).StateAtBlockHash
+//@   props C03
+//@   arith int
+//@   nosafe
+//@   requires b != nil && b.database != nil && blockHash != nil
+//@   modifies *
+//@   assigns retainedNumber, calls_RootByNumber, arg_RootByNumber_blockNumber, calls_NewStateHistory, arg_NewStateHistory_blockNum
+//@   callsite GetBlockHeaderNumberByHash@*: of_the_hash_asked_for: $1 == blockHash
+//@   callsite GetGlobalStateRootByBlockNumber@*: root_of_that_block: $1 == blockNumber && blockNumber == retainedNumber
+//@   callsite NewStateHistory@*: pinned_to_the_block_with_its_root: $0 == blockNumber && $1 == stateRoot && blockNumber == retainedNumber
